@@ -19,7 +19,7 @@ RULE = ('polynomial programs R^N -> R^M with integer coefficients (degree <= d+2
         '1e-11 x sum of absolute term values); smooth programs mirrored in mpmath and compared with mp.diff; '
         'a class = (driver, N, M or d, point kind, program style); non-trivial = N>=2 or d>=2')
 ASSUMPTIONS = ['exact Fraction arithmetic; mp.diff at 60 digits', 'the ordering of extract_tensor rows is taken from generate_multi_indices (validated as a set by C15)']
-REQUIRED = ['jacobian', 'jacobian:matrix-seed', 'jac_vec', 'hessian', 'hess_vec', 'tensor', 'tensor_full', 'smooth:jacobian', 'smooth:hessian', 'smooth:tensor']
+REQUIRED = ['jacobian', 'jacobian:matrix-seed', 'jac_vec', 'hessian', 'hess_vec', 'tensor', 'tensor_full', 'smooth:jacobian', 'smooth:hessian', 'smooth:tensor', 'tensor_typed']
 
 
 def cases(tier, seed):
@@ -39,6 +39,9 @@ def cases(tier, seed):
                     if math.comb(N + d - 1, d) <= bound:
                         add('tensor', N=N, d=d, point=pt, rep=rep)
             add('smooth', N=min(N, 4), rep=rep)
+            if N <= 3:
+                for d in (1, 2, 3):
+                    add('tensor_typed', N=N, d=d, point=['complex', 'longdouble', 'float32'][(rep + d) % 3], rep=rep)
         for shp in ((2, 3), (3, 2), (1, 4), (2, 2)):
             for lay in ('C', 'F', 'T', 'slice'):
                 add('jacmat', shape=list(shp), layout=lay, point=['int', 'real'][rep % 2], rep=rep)
@@ -78,6 +81,54 @@ def run_case(ctx, case):
     rng = gen.rng_of(case)
     return globals()['_' + case['kind']](ctx, case['params'], rng)
 
+
+
+def _tensor_typed(ctx, p, rng):
+    """init_tensor / extract_tensor at a point that is not a float64 array: complex (the polynomial program is analytic, the
+    table holds its complex partial derivatives), longdouble, float32.  The type of the point must survive the seeding (the
+    other init_* drivers keep it) and the table must be the one at that point, not at its real part / its rounded value."""
+    N, d = p['N'], p['d']
+    poly = PP.random_poly(rng, N, d + 2, 5)
+    xr = np.round(rng.normal(size=N) * 1.5, 3); xi = np.round(rng.normal(size=N) * 1.5, 3)
+    J = [tuple(int(v) for v in row) for row in np.asarray(EI.generate_multi_indices(N, d))]
+    style = int(rng.integers(6))
+    if p['point'] == 'complex':
+        xt = xr + 1j * xi
+        xq = [complex(float(a), float(b)) for a, b in zip(xr, xi)]
+        tau = 1e-9
+    elif p['point'] == 'longdouble':
+        xt = xr.astype(np.longdouble) + np.longdouble(1) / np.longdouble(3)         # not representable in double precision
+        xq = [Fraction(float(a)) + Fraction(1, 3) for a in xr]
+        tau = 1e-9
+    else:
+        xt = xr.astype(np.float32)
+        xq = [Fraction(float(a)) for a in xt]
+        tau = 1e-3
+    try:
+        X = UTPM.init_tensor(d, xt)
+        Y = PP.evaluate(algopy, [poly], X, style)
+        T = np.asarray(UTPM.extract_tensor(N, Y, as_full_matrix=False))
+    except Exception as e:
+        ctx.violation('tensor_typed:raises:' + type(e).__name__, {'N': N, 'd': d, 'point': p['point'], 'error': repr(e)[:200]}); return
+    want_kind = {'complex': 'c', 'longdouble': 'f', 'float32': 'f'}[p['point']]
+    if X.data.dtype.kind != want_kind or (p['point'] == 'longdouble' and X.data.dtype.itemsize < np.dtype(np.longdouble).itemsize):
+        ctx.violation('tensor_typed:seed-dtype:' + p['point'], {'N': N, 'd': d, 'got': str(X.data.dtype), 'point_dtype': str(np.asarray(xt).dtype)}); return
+    if not np.all(X.data[0] == np.asarray(xt)[None, :]):
+        ctx.violation('tensor_typed:seed-value:' + p['point'], {'N': N, 'd': d}); return
+    absq = [Fraction(abs(complex(v))) if isinstance(v, complex) else abs(v) for v in xq]
+    total = float(sum(poly.partial(a).absval(absq) / math.prod(math.factorial(k) for k in a) for a in J)) + float(poly.absval(absq))
+    worst = 0.0
+    for a, got in zip(J, T):
+        ref = poly.partial(a)(xq) / math.prod(math.factorial(k) for k in a)
+        e = abs(complex(got) - complex(ref)) / (total * 30.0 ** d + 1e-300)
+        worst = max(worst, e)
+        if not (e <= tau):
+            ctx.violation('tensor_typed:value:' + p['point'], {'N': N, 'd': d, 'alpha': a, 'got': str(complex(got)), 'want': str(complex(ref)), 'x': [str(v) for v in np.asarray(xt)]}); return
+    if p['point'] == 'longdouble' and np.finfo(np.longdouble).eps < 1e-17 and N >= 1:
+        # the shift by 1/3 is below double resolution only in its last bits: the zeroth coefficient must carry them
+        if np.all(X.data[0].astype(np.float64).astype(np.longdouble) == X.data[0]):
+            ctx.violation('tensor_typed:seed-rounded-to-double', {'N': N, 'd': d}); return
+    ctx.ok('tensor_typed', ('tensor_typed', N, d, p['point'], style), noise=worst)
 
 def _jac(ctx, p, rng):
     N, M = p['N'], p['M']
